@@ -914,6 +914,16 @@ func ruleModuleInit(r *Run) {
 				okState = reg != "" && strings.HasPrefix(st, reg)
 			}
 			r.CheckT("J3", fn.Name+":state-from-session", okState, fn.Body.Pos(), path, "the module's state is the one registered in the session under the module's name (%q)", st)
+			// what Init offers to the session as a new state is a fresh object, never one the module already
+			// holds (a connection that switches sessions would register the old session's state in the new one)
+			for _, iReg := range []int{iLos, iSet} {
+				if iReg < 0 || len(path.Events[iReg].Call.Args) != 2 {
+					continue
+				}
+				cand := r.P.Canon(path.Events[iReg].Fn, path.Events[iReg].Call.Args[1])
+				r.CheckT("J3", fn.Name+":fresh-candidate", !strings.Contains(cand, "recv.") && cand != "nil" && cand != "", path.Events[iReg].Pos, path,
+					"the state Init registers in the session when none exists is created for that purpose (%q): a state the module carries over from an earlier join belongs to another session", cand)
+			}
 			iGet := idxOfCall(path, getState, 0)
 			if iGet >= 0 {
 				gev := path.Events[iGet]
